@@ -145,3 +145,28 @@ Theorem uci_session_ends extra input : snd (uci_session extra input) <> Continue
 Proof.
   unfold uci_session. apply uci_run_ends. unfold measure, with_eof. rewrite app_length. cbn. lia.
 Qed.
+
+(* ---- C18: `ucinewgame` followed by a `position` command leaves exactly the state a fresh engine has after that command ---- *)
+Lemma step_position extra u P input g rep :
+  trim P <> "" -> lower_str (first_token (trim P)) = "position" -> rest_tokens (trim P) <> [] ->
+  parse_position (skip 9 (trim P)) = FOk (g, rep) ->
+  uci_step extra u P input = (mkU g (u_tt u) rep, [], None, input, Continue).
+Proof.
+  intros NE CMD ARG PP. unfold uci_step. cbn zeta.
+  destruct (String.eqb (trim P) "") eqn:E; [apply String.eqb_eq in E; contradiction|].
+  rewrite CMD.
+  repeat match goal with |- context [String.eqb "position" ?s] =>
+    let b := eval vm_compute in (String.eqb "position" s) in change (String.eqb "position" s) with b end.
+  cbn [orb]. destruct (rest_tokens (trim P)) as [|x r]; [contradiction|]. cbn [negb]. rewrite PP. reflexivity.
+Qed.
+
+Theorem ucinewgame_then_position_is_fresh extra u P input input' g rep :
+  trim P <> "" -> lower_str (first_token (trim P)) = "position" -> rest_tokens (trim P) <> [] ->
+  parse_position (skip 9 (trim P)) = FOk (g, rep) ->
+  let '(u1, _, _, _, _) := uci_step extra u "ucinewgame" input in
+  uci_step extra u1 P input' = uci_step extra init_ustate P input'.
+Proof.
+  intros NE CMD ARG PP. rewrite step_ucinewgame.
+  rewrite (step_position extra _ P input' g rep NE CMD ARG PP), (step_position extra init_ustate P input' g rep NE CMD ARG PP).
+  reflexivity.
+Qed.
